@@ -64,7 +64,7 @@ def expected_matrix(docs, est, cfg):
             radii.append(row)
     nw = len(rev)
     mask_index = (V - 1) if cfg.get("nullify") else None
-    cells = reference_cells(seqs, V, _Radii(radii), rev, cfg["kernel"], Q(9, 10), [0] * nw, [False] * nw, mask_index,
+    cells = reference_cells(seqs, V, _Radii(radii), rev, cfg["kernel"], Q(0.9), [0] * nw, [False] * nw, mask_index,
                             [Q(1)] * nw, cfg["normalize_windows"])
     return cells, V, nw
 
@@ -87,7 +87,8 @@ def h_token_class(ex, fit_lens, tr_lens, cfg, props):
     register("X", X); register("Y", Y)
     kw = dict(window_radii=cfg["radii"] if len(cfg["radii"]) > 1 else cfg["radii"][0],
               window_orientations=cfg["orientations"] if len(cfg["orientations"]) > 1 else cfg["orientations"][0],
-              kernel_functions=cfg["kernel"], normalize_windows=cfg["normalize_windows"],
+              kernel_functions=cfg["kernel"] if len(cfg["radii"]) == 1 else [cfg["kernel"]] * len(cfg["radii"]),
+              window_functions="fixed" if len(cfg["radii"]) == 1 else ["fixed"] * len(cfg["radii"]), normalize_windows=cfg["normalize_windows"],
               n_threads=cfg.get("n_threads", 1), coo_initial_memory=cfg.get("mem", "0.5 GiB"))
     if cfg.get("mask") is not None:
         kw["mask_string"] = cfg["mask"]
